@@ -14,6 +14,8 @@ structure Sess where
   cfg : Cfg Val := stdCfg 3 0
   m : Map Val := Map.empty 3 stdStorages 1
   inTx : Bool := false
+  /-- `txi`: the block swallows the aborts of its operations -/
+  txIgnore : Bool := false
   txOps : Array (P Val String) := #[]
 
 def natsStr (l : List Nat) : String := " ".intercalate (l.map toString)
@@ -197,6 +199,28 @@ def stepTop (h : Hooks) (s : Sess) (toks : List String) : Sess × String :=
             u := ((nums.getD nb []).map (fun x => decide (x ≠ 0))).toArray }
           ({ dim := dim, mask := mask, cfg := stdCfg nb mask, m := m1 }, "ok")
       | _, _, _ => (s, "bad-op")
+  -- two orbits alive at once, consumed alternately / nested (C03): each orbit is its own traversal
+  | ["orbitz", pa, a, pb, b] =>
+      match txOpAll h s ["orbit", pa, a], txOpAll h s ["orbit", pb, b] with
+      | some p, some q =>
+          match (atomically p s.m).1, (atomically q s.m).1 with
+          | .ok x, .ok y => (s, "ok " ++ x ++ " | " ++ y)
+          | _, _ => (s, "panic")
+      | _, _ => (s, "bad-op")
+  | ["orbitn", pa, a, pb] =>
+      match txOpAll h s ["orbit", pa, a] with
+      | some p =>
+          match (atomically p s.m).1 with
+          | .ok x =>
+              let ds := (x.splitOn " ").filter (· ≠ "")
+              let parts := ds.map fun d =>
+                match txOpAll h s ["orbit", pb, d] with
+                | some q => (match (atomically q s.m).1 with | .ok y => some y | _ => none)
+                | none => none
+              if parts.any Option.isNone then (s, "panic")
+              else (s, "ok " ++ " | ".intercalate (parts.filterMap id))
+          | _ => (s, "panic")
+      | none => (s, "bad-op")
   | ["setb", i, d, v] =>
       match i.toNat?, d.toNat?, v.toNat? with
       | some i, some d, some v =>
@@ -236,7 +260,8 @@ def stepTop (h : Hooks) (s : Sess) (toks : List String) : Sess × String :=
   | ["snap"] => (s, snapStr s)
   | ["wf"] => (s, wfStr s)
   | ["ndarts"] => (s, s!"ok {s.m.n} {((List.range s.m.n).filter (fun d => s.m.unused d)).length}")
-  | ["tx"] => ({ s with inTx := true, txOps := #[] }, "ok")
+  | ["tx"] => ({ s with inTx := true, txIgnore := false, txOps := #[] }, "ok")
+  | ["txi"] => ({ s with inTx := true, txIgnore := true, txOps := #[] }, "ok")
   | _ =>
     -- `f`-prefixed force variants behave like a single-op transaction
     let toks' := match toks with
@@ -257,6 +282,12 @@ def step (h : Hooks) (s : Sess) (line : String) : Sess × String :=
     match toks with
     | ["endtx"] =>
         let prog : P Val (Array String) :=
+          if s.txIgnore then
+            s.txOps.foldl (fun acc p => do
+              let rs ← acc
+              let r ← p.attempt
+              pure (rs.push (match r with | .ok x => x | .error e => errStr e))) (pure #[])
+          else
           s.txOps.foldl (fun acc p => do let rs ← acc; let r ← p; pure (rs.push r)) (pure #[])
         let (o, m') := atomically prog s.m
         let out := match o with
@@ -264,7 +295,7 @@ def step (h : Hooks) (s : Sess) (line : String) : Sess × String :=
           | .err e => "tx " ++ errStr e
           | .retry => "tx retry"
           | .panic => "tx panic"
-        (resetFault { s with m := m', inTx := false, txOps := #[] }, out)
+        (resetFault { s with m := m', inTx := false, txIgnore := false, txOps := #[] }, out)
     | _ =>
       match txOpAll h s toks with
       | some p => ({ s with txOps := s.txOps.push p }, "queued")
